@@ -234,7 +234,8 @@ func Finish(rc *RunCtx, res *Result, level string, verifDir string) int {
 		ev.Coverage["paths_cut_by_known_findings"] = kc
 	}
 	code := 0
-	if res.HarnessErr != nil {
+	if res.HarnessErr != nil && len(res.Violations) == 0 {
+		// a non-vacuity failure next to a violation is a consequence of the cut paths: the violation wins
 		ev.Coverage["harness_error"] = res.HarnessErr.Error()
 		fmt.Printf("HARNESS-ERROR property=%s %v\n", rc.Property, res.HarnessErr)
 		code = 2
